@@ -452,7 +452,7 @@ def array_attr(ev, b, name, t, ctx):
                   sign=b.sign if (name == 'real' and real_dtype(b)) else None, meta=('part_of', name, b))
     if name in ('tiny', 'eps', 'max', 'min') and b.meta is not None and isinstance(b.meta, tuple) and b.meta and b.meta[0] in ('finfo', 'iinfo'):
         if name in ('tiny', 'eps'):
-            return AV(kind=SCALAR, sign='POS', meta=('finfo.' + name,))
+            return AV(kind=SCALAR, sign='POS', meta=('finfo.' + name, b.meta[1] if len(b.meta) > 1 else None))
         return AV(kind=SCALAR, meta=(b.meta[0] + '.' + name,), sign='POS' if name == 'max' else 'NONZERO')
     if name == 'kind' and b.kind is not TOP and b.kind <= {'dtype'}:
         return AV(kind=frozenset(['str']))
@@ -898,7 +898,22 @@ def h_scalar_query(ev, name, pos, kw, ctx, t):
 
 
 def h_finfo(ev, name, pos, kw, ctx, t):
-    return AV(kind=frozenset(['other']), meta=('finfo' if name.endswith('finfo') else 'iinfo',))
+    # second component: the fixed dtype the limits belong to ('float64', ...), or None when it is the dtype of an array at hand
+    fixed = None
+    try:
+        from .walk import call_arg, const_val, NOVAL
+        a = call_arg(t, 0)
+        while a is not None and a.op == 'refine':
+            a = a.args[0]
+        if a is not None and a.op == 'ref' and hasattr(a.args[0], 'dotted'):
+            fixed = a.args[0].dotted.split('.')[-1]
+        elif a is not None and isinstance(const_val(a), str):
+            fixed = const_val(a)
+        elif a is not None and a.op == 'ref' and a.args[0] == ('builtin', 'float'):
+            fixed = 'float64'
+    except Exception:
+        fixed = None
+    return AV(kind=frozenset(['other']), meta=('finfo' if name.endswith('finfo') else 'iinfo', fixed))
 
 
 def einsum_parse(sub):
@@ -1255,7 +1270,8 @@ def call_builtin(ev, name, pos, kw, ctx, t):
             except Exception:
                 pass
         sign = 'NONNEG' if name == 'abs' else (x.sign if name in ('float', 'int') else None)
-        return AV(kind=SCALAR, deps=deps, sign=sign)
+        keep = x.meta if (name in ('float', 'abs') and isinstance(x.meta, tuple) and x.meta and x.meta[0] in ('finfo.tiny', 'finfo.eps')) else None
+        return AV(kind=SCALAR, deps=deps, sign=sign, meta=keep)
     if name == 'str':
         if pos and pos[0].is_const:
             return cav(str(pos[0].cval))
